@@ -15,26 +15,29 @@ def _can_fail(g):
 
 
 ALL = [GRAPHS[g] for g in sorted(GRAPHS) if g not in HEAVY and _can_fail(GRAPHS[g])]
+_TYPES = {"g06", "g12", "g16", "g32", "g40"}      # graphs on which every raised exception type is tried (others: ValueError)
 
 for _g in ALL:
     _fp = _fault_params(_g)
     _ex = {k: (i == 0) for i, (k, _) in enumerate(_fp)}
     _ex["xk"] = 0
     T.register("C12", __name__, T.h_fault, {"hist": False}, [_g], lemma="surface", name_prefix="fault", timeout=300,
-               extra_params=_fp, extra_example=_ex, cubes={"xk": [0, 1, 2, 3, 4, 5]}, example_a={},
+               extra_params=_fp, extra_example=_ex, cubes={"xk": ([0, 1, 2, 3, 4, 5] if _g.gid in _TYPES else [0])}, example_a={},
                what="whatever subset of the user-supplied callables (bodies, callback, effects, predicates, steps) raises, and whichever "
                     "options are missing: evaluate() fails iff the eager reference fails; the failure is an EvaluationError whose source "
                     "is the object evaluate() was called on and whose cause chain contains the very exception object user code raised, "
                     "or a KeyNotFoundError carrying the key the reference finds missing",
-               bounds="fault flags for up to 5 callables of the graph; raised type one of ValueError / KeyError / RuntimeError / custom / "
+               bounds="fault flags for up to 4 callables of the graph; raised type one of ValueError / KeyError / RuntimeError / custom / "
                       "EvaluationError / KeyNotFoundError (cubes)")
 
-_HIST = [g for g in ALL if (g.tags & {"ds", "cached"})]
+_HIST = [g for g in ALL if g.gid in ("g06", "g11", "g12", "g13", "g14", "g16", "g17", "g62", "g64", "g65")]
 for _g in _HIST:
     _fp = _fault_params(_g)
     _ex = {k: (i == 0) for i, (k, _) in enumerate(_fp)}
-    T.register("C12", __name__, T.h_fault, {"hist": True, "xk": 0}, [_g], lemma="not-stored", name_prefix="fhist", timeout=300, two=True,
+    T.register("C12", __name__, T.h_fault, {"hist": True, "xk": 0}, [_g], lemma="not-stored", name_prefix="fhist", two=True,
+               timeout=600 if _g.gid not in ("g13", "g16") else 1500, tier="quick" if _g.gid not in ("g13", "g16") else "thorough",
                stubs=("S1",), extra_params=_fp, extra_example=_ex, example_a={},
+               cubes={k: [True, False] for k, _ in _fp[:2]},
                what="on one long-lived graph: after an evaluation that failed (fault or missing option), the same options without the "
                     "fault, the options completed with the missing keys, and the original options again all give what a fresh graph gives",
-               bounds="history of 4 evaluations; fault flags for up to 5 callables; stub S1")
+               bounds="history of 4 evaluations; fault flags for up to 4 callables; stub S1")
